@@ -348,9 +348,10 @@ def _num(k):
 
 # ------------------------------------------------------------------ jaxpr interpreter
 class Interp:
-    def __init__(self, sizes, intercept=None):
+    def __init__(self, sizes, intercept=None, prim_hook=None):
         self.sizes = dict(sizes)              # symbol -> traced extent
         self.intercept = intercept or {}
+        self.prim_hook = prim_hook or {}
         self.seen = {}
 
     def run(self, jaxpr, consts, args):
@@ -377,6 +378,18 @@ class Interp:
         p, P = e.primitive.name, e.params
         self.seen[p] = self.seen.get(p, 0) + 1
         sym = any(isinstance(x, (TT, Stack, Frac)) for x in ins)
+        if p in self.prim_hook:
+            r = self.prim_hook[p](self, e, ins)
+            if r is not None:
+                return r
+        if p == "scan":
+            # only the FIRST iteration of a scan is interpreted (its body is what the obligations are about); the callers stop it with a hook
+            consts, carry, xs = [list(t) for t in P["ft_in"].update(ins).unpack()]       # JAX 0.11: flat inputs = consts + carry + xs
+            if xs:
+                raise Unsupported("scan over symbolic per-iteration inputs")
+            cj = P["jaxpr"]
+            out = self.run(cj.jaxpr, cj.consts, consts + carry)
+            raise Unsupported("scan body ended without being stopped by the obligation's hook")
         if p in ("jit", "pjit", "closed_call", "core_call", "custom_jvp_call", "custom_vjp_call", "remat", "checkpoint"):
             nm = P.get("name", "")
             if nm in self.intercept:
